@@ -18,6 +18,8 @@ import (
 	"io"
 	"net"
 	"os"
+	"runtime"
+	"runtime/debug"
 	"sort"
 	"strconv"
 	"strings"
@@ -227,7 +229,7 @@ func parseC15Script(s string) (*c15Script, bool) {
 			}
 		case "split":
 			ed.a, ok = num(2)
-			ok = ok && len(f) == 3 && ed.a >= 1
+			ok = ok && len(f) == 3 && ed.a >= 1 && ed.a <= 3 // inside the 4-byte header: every message is that long
 		case "len": // len:i:offset:width:delta
 			var o1, o2, o3 bool
 			ed.a, o1 = num(2)
@@ -302,6 +304,7 @@ type c15Mitm struct {
 	held      *c15Item
 	heldEdits []c15Edit
 	rewrite   func(raw []byte) []byte
+	tls       bool
 	closed    bool
 	types     []string // observed item types (hsflight)
 	mu        sync.Mutex
@@ -338,7 +341,8 @@ func (m *c15Mitm) writeHS(vers uint16, b []byte) {
 	m.write(recHandshake, vers, b)
 }
 
-func c15HsBody(name string) []byte {
+// a well-formed message of the named type with a plausible body (tls: TLS 1.2 formats)
+func c15HsBody(name string, tls bool) []byte {
 	mk := func(t byte, body []byte) []byte {
 		return append([]byte{t, byte(len(body) >> 16), byte(len(body) >> 8), byte(len(body))}, body...)
 	}
@@ -361,10 +365,16 @@ func c15HsBody(name string) []byte {
 	case "skx":
 		return mk(12, []byte{3, 0, 23, 0})
 	case "creq":
+		if tls {
+			return mk(13, []byte{2, 1, 64, 0, 2, 4, 1, 0, 0})
+		}
 		return mk(13, []byte{2, 1, 64, 0, 0})
 	case "shd":
 		return mk(14, nil)
 	case "cv":
+		if tls {
+			return mk(15, []byte{4, 1, 0, 2, 1, 2})
+		}
 		return mk(15, []byte{0, 2, 1, 2})
 	case "ckx":
 		return mk(16, []byte{0, 2, 1, 2})
@@ -382,11 +392,11 @@ func c15HsBody(name string) []byte {
 
 func (m *c15Mitm) insert(e c15Edit, vers uint16) {
 	for k := 0; k < e.a; k++ {
-		if b := c15HsBody(e.name); b != nil {
+		if b := c15HsBody(e.name, m.tls); b != nil {
 			m.writeHS(vers, b)
 			continue
 		}
-		if e.name != "empty" && e.name != "frag" && e.name != "bigmsg" && e.name != "malformed" {
+		if e.name != "frag" && e.name != "bigmsg" && e.name != "malformed" {
 			m.flushCarry(vers)
 		}
 		switch e.name {
@@ -624,6 +634,12 @@ func c15Configs(role string, fl map[string]bool, mode string) (ccfg, scfg *gmtls
 	default:
 		return nil, nil, false, false
 	}
+	if mode != "" { // chmod: the client's kind is chosen independently of the server's mode
+		kind = "gm"
+		if fl["tls"] {
+			kind = "tls"
+		}
+	}
 	if mode == "" {
 		mode = map[string]string{"gmserver": "gm", "gmclient": "gm", "tlsserver": "tls", "tlsclient": "tls", "autoserver": "auto"}[role]
 	}
@@ -693,11 +709,12 @@ func c15Exec(rn c15Run) (res c15Result) {
 	} else {
 		E, P = gmtls.Server(eConn, scfg), gmtls.Client(pConn, ccfg)
 	}
-	mitm := &c15Mitm{sc: rn.sc, dst: mE, rewrite: rn.rewrite}
+	mitm := &c15Mitm{sc: rn.sc, dst: mE, rewrite: rn.rewrite, tls: ccfg.GMSupport == nil}
 	w.onQuiet = func() { mE.closeWrite() } // deadlock: the peer "goes away"
 
-	var relays sync.WaitGroup
-	relays.Add(2)
+	var relays, observer sync.WaitGroup
+	relays.Add(1)
+	observer.Add(1)
 	go func() { // P -> E, through the script
 		defer relays.Done()
 		defer mP.retire()
@@ -715,7 +732,7 @@ func c15Exec(rn c15Run) (res c15Result) {
 	var out []byte
 	outRecs := 0
 	go func() { // E -> P, observed
-		defer relays.Done()
+		defer observer.Done()
 		defer mE.retire()
 		cut := false
 		if rn.eofOut == 0 {
@@ -752,9 +769,9 @@ func c15Exec(rn c15Run) (res c15Result) {
 	var ew, pw sync.WaitGroup
 	ew.Add(1)
 	pw.Add(1)
-	go hsEnd(E, &er, &ew)
+	go c15HsEnd(E, &er, &ew)
 	go func() {
-		hsEnd(P, &pr, &pw)
+		c15HsEnd(P, &pr, &pw)
 		if pr.err != nil || pr.panicked != "" {
 			pConn.Close() // a peer whose handshake failed hangs up
 		}
@@ -765,7 +782,7 @@ func c15Exec(rn c15Run) (res c15Result) {
 	}
 	eConn.closeWrite()
 	if !res.hung {
-		waitTimeout(&relays, 2*time.Second)
+		waitTimeout(&observer, 2*time.Second) // E's last records (its alert) have been seen
 	}
 	eConn.Close()
 	pConn.Close()
@@ -775,11 +792,46 @@ func c15Exec(rn c15Run) (res c15Result) {
 	waitTimeout(&relays, 2*time.Second)
 	res.done, res.err, res.panicked = er.done, er.err, er.panicked
 	res.pPanic = pr.panicked
+	if os.Getenv("VERIF_DEBUG") != "" {
+		fmt.Fprintf(os.Stderr, "E: done=%v err=%v | P: done=%v err=%v\n", er.done, er.err, pr.done, pr.err)
+	}
 	res.alert, res.out, res.outRecs = alert, out, outRecs
 	mitm.mu.Lock()
 	res.types = append([]string{}, mitm.types...)
 	mitm.mu.Unlock()
 	return
+}
+
+// hsEnd of tls.go, with the panicking function's name in the report
+func c15HsEnd(conn *gmtls.Conn, out *endResult, wg *sync.WaitGroup) {
+	defer wg.Done()
+	defer func() {
+		if e := recover(); e != nil {
+			out.panicked = fmt.Sprint(e) + "@" + c15PanicSite()
+			if os.Getenv("VERIF_DEBUG") != "" {
+				os.Stderr.Write(debug.Stack())
+			}
+		}
+	}()
+	out.err = conn.Handshake()
+	out.done = out.err == nil
+}
+
+// first gmtls frame below the panic
+func c15PanicSite() string {
+	pcs := make([]uintptr, 40)
+	n := runtime.Callers(3, pcs)
+	fr := runtime.CallersFrames(pcs[:n])
+	for {
+		f, more := fr.Next()
+		if strings.Contains(f.Function, "gmsm/gmtls.") {
+			name := f.Function[strings.LastIndex(f.Function, "gmtls.")+6:]
+			return name
+		}
+		if !more {
+			return "?"
+		}
+	}
 }
 
 func c15Clean(s string) string {
@@ -1052,11 +1104,11 @@ func evalChmod(args []string) string {
 	if !parsed {
 		return "ORACLE-FAIL:harness-could-not-parse-the-genuine-hello"
 	}
-	sc := &c15Script{}
-	if changed {
-		sc.edits = []c15Edit{{op: "len"}} // an altered hello is misbehaviour, and only done / error is compared
+	// an altered hello is misbehaviour; only done / error is compared (the alert depends on the peer's reaction)
+	v := c15Verdict(res, &c15Script{edits: []c15Edit{{op: "len"}}}, -1)
+	if res.done && !changed && res.setup == "" && res.panicked == "" && res.pPanic == "" && !res.hung {
+		v = "done"
 	}
-	v := c15Verdict(res, sc, -1)
 	if strings.HasPrefix(v, "ORACLE-FAIL") || strings.HasPrefix(v, "setup") {
 		return v
 	}
